@@ -315,10 +315,14 @@ def request_origin(q):
     return q['host'] + '#443' if q.get('port') == 443 else q['host']
 
 
+NF_PAGES = {'/nf': '/only-nf', '/docs/node.js/nf.html': '/only-nf2'}
+
+
 def gen_rsite(rng, big=None):
     s = RSite()
     hosts = ['a.test'] + (['a.test:81'] if rng.random() < 0.5 else []) + (['a.test#443'] if rng.random() < 0.35 else [])
-    names = ['/', '/a', '/b', '/private/x', '/private/y', '/pub/z', '/p.png', '/nf', '/only-nf', '/s?q=1', '/s?q=2', '/s', '/t;v=1']
+    names = ['/', '/a', '/b', '/private/x', '/private/y', '/pub/z', '/p.png', '/nf', '/only-nf', '/s?q=1', '/s?q=2', '/s', '/t;v=1',
+             '/docs/node.js/nf.html', '/only-nf2']
     for h in hosts:
         kind = rng.choice(['ok', 'ok', 'ok', 'missing', 'error', 'redirect', 'redirect', 'forbidden', 'dropped-once', 'dropped-always'])
         text = ''
@@ -341,21 +345,23 @@ def gen_rsite(rng, big=None):
                 text = text.rstrip('\n')        # last rule without a line end
             if big if big is not None else rng.random() < 0.25:
                 # the deciding rule comes after more than 4 KiB of other (irrelevant) rules
-                pad = ''.join('Disallow: /zz%04d\n' % i for i in range(300))
+                # (sometimes more than 100 KiB: the size at which the parser's own download helper would stop reading)
+                pad = ''.join('Disallow: /zz%04d\n' % i for i in range(rng.choice([300, 300, 300, 6500])))
                 text = 'User-agent: *\n' + pad + 'Disallow: /private\nDisallow: /b\n'
         pages = {}
         for p in names:
             links = [q if rng.random() < 0.8 else '%s%s' % (origin_base(rng.choice(hosts)), q)
-                     for q in rng.sample(names, rng.randint(1, 4)) if q != '/only-nf']
-            if p == '/nf':
-                pages[p] = {'kind': 'html', 'links': ['/only-nf', '/a'], 'inline': ['/p.png'], 'meta': rng.choice(['nofollow', 'noindex, nofollow', 'NOFOLLOW']),
+                     for q in rng.sample(names, rng.randint(1, 4)) if q not in ('/only-nf', '/only-nf2')]
+            if p in NF_PAGES:
+                # (the second nofollow page has a URL that looks like a script to a detector that goes by the name)
+                pages[p] = {'kind': 'html', 'links': [NF_PAGES[p], '/a'], 'inline': ['/p.png'], 'meta': rng.choice(['nofollow', 'noindex, nofollow', 'NOFOLLOW']),
                             'meta_pos': rng.choice(['head', 'head-after-link', 'body-end']), 'refresh': rng.random() < 0.3}
-            elif p in ('/p.png', '/only-nf'):
+            elif p in ('/p.png', '/only-nf', '/only-nf2'):
                 pages[p] = {'kind': 'leaf'}
             elif p == '/pub/z' and rng.random() < 0.3:
                 pages[p] = {'kind': 'redirect', 'location': rng.choice(['/private/x', '/a'])}
             else:
-                pages[p] = {'kind': 'html', 'links': links + (['/nf'] if rng.random() < 0.3 else [])}
+                pages[p] = {'kind': 'html', 'links': links + (['/nf'] if rng.random() < 0.3 else []) + (['/docs/node.js/nf.html'] if rng.random() < 0.3 else [])}
         if text and rng.random() < 0.2:
             text = '\xef\xbb\xbf' + text          # saved with a UTF-8 byte order mark
         elif text and rng.random() < 0.3:
@@ -564,9 +570,10 @@ def judge(ctx, r, reply, case, site):
             ctx.fail('robots-refetched', 'origin', case, 'robots.txt of %s fetched again after it was obtained' % e['origin'])
     # nofollow
     for host, o in site.origins.items():
-        if any(request_origin(q) == host and q['target'] == '/nf' for q in r['requests']):
-            if any(request_origin(q) == host and q['target'] == '/only-nf' for q in r['requests']):
-                ctx.fail('nofollow-ignored', 'html-scraper', case, '/only-nf is linked only from a page declaring nofollow but was requested')
+        for nf, only in NF_PAGES.items():
+            if any(request_origin(q) == host and q['target'] == nf for q in r['requests']):
+                if any(request_origin(q) == host and q['target'] == only for q in r['requests']):
+                    ctx.fail('nofollow-ignored', 'html-scraper', case, '%s is linked only from %s, a page declaring nofollow, but was requested' % (only, nf))
 
 
 def batch(ctx, cases):
